@@ -108,8 +108,12 @@ func (r *bucketRegistry) deleteBucket(ctx context.Context, bucket *Bucket) error
 	r.lock.Lock()
 	defer r.lock.Unlock()
 
-	_, ok := r.buckets[name]
-	if ok {
+	if registered, ok := r.buckets[name]; ok {
+		if registered.sqliteDB != bucket.sqliteDB {
+			// this handle belongs to a bucket that has since been deleted or closed: the bucket that is
+			// registered under the name now is another one, and not this handle's to delete
+			return nil
+		}
 		delete(r.buckets, name)
 	}
 	delete(r.bucketCount, name)
